@@ -1,5 +1,6 @@
 import Swat4.Drv.GS1Render
 import Swat4.Spec.GS1Spec
+import Swat4.Model.Details
 /-!
 Driver side of C08:
 
@@ -18,7 +19,9 @@ Driver side of C08:
 * `C08 probe <gameport> <responder>;… => chosen <k> <ver> res:<class> | failed`
   responder = `x` | `<delay_ms>/<dgrams>`; arrival order = ascending delay.  Model:
   `GS1.choose`.  Oracle: the kept answer is among the accepted ones (decodes, hostport = game
-  port) and has the maximal dialect among them; `failed` iff none is accepted.
+  port) and has the maximal dialect among them; `failed` iff none is accepted; the result class `res:<class>` is the one the
+  kept answer's details give (`DetailsProbe.detailsOf`: `res:ok` iff they parse and validate; `res:port-mismatch` and
+  `res:err-other` are never accepted).
 -/
 namespace Swat4.Drv.C08
 open Swat4 Swat4.Drv Swat4.GS1 Swat4.GS1Spec Swat4.Drv.GS1Render
@@ -75,21 +78,36 @@ def handleProbe (gamePort : Int) (rs : List (Option (Nat × List Bytes))) (out :
       | .response resp => some (dl, k, resp)
       | _ => none
   let arrivals := (answered.foldl (fun acc x => insertByDelay x acc) []).map fun (_, k, resp) => (⟨(k : Int), resp⟩ : PortAnswer)
+  -- what the prober makes of the answer it kept (`portprober.go:107-120`: `NewDetailsFromParams`, then `Validate`) — the
+  -- post-query stage of the details prober, `DetailsProbe.detailsOf` (`Model/Details.lean`, validated against the code by C07)
+  let clsOf (resp : Response) : String := match DetailsProbe.detailsOf resp with
+    | .ok _ => "res:ok"
+    | .errParse => "res:err-parse"
+    | .errValidate => "res:err-validate"
   let model := match choose gamePort arrivals with
     | none => ["failed"]
-    | some (v, k) => ["chosen", toString k, v.tag]
+    | some (v, k) => ["chosen", toString k, v.tag] ++ ((arrivals.find? fun a => a.port == k).map fun a => clsOf a.resp).toList
   let acc := arrivals.filter (accepted gamePort)
   let maxVer := acc.foldl (fun m a => max m a.resp.version.toNat) 0
-  let ok := match out with
+  -- the fourth token: the class of the prober's RESULT.  It must be the class the kept answer's details give (`res:ok` exactly
+  -- when they parse and validate); `res:port-mismatch` (the result names another port than the answer kept) and `res:err-other`
+  -- are never right
+  let kept (k v : String) : List PortAnswer := acc.filter fun a => toString a.port == k && (v == "?" || a.resp.version.tag == v) && a.resp.version.toNat == maxVer
+  let choiceOk := match out with
     | ["failed"] => acc.isEmpty
-    | ["chosen", k, v, _] => acc.any fun a => toString a.port == k && (v == "?" || a.resp.version.tag == v) && a.resp.version.toNat == maxVer
+    | ["chosen", k, v, _] => !(kept k v).isEmpty
     | _ => false
+  let classOk := match out with
+    | ["chosen", k, v, cls] => (kept k v).any fun a => clsOf a.resp == cls
+    | _ => true
+  let ok := choiceOk && classOk
   -- several accepted answers of the same, most capable dialect: which of them is kept depends on real arrival
   -- order ("latest wins"), i.e. on timing under load — the property fixes the dialect and membership, not the port
   let tie := ok && model.getD 0 "" == "chosen" && out.getD 0 "" == "chosen" && model.getD 2 "" == out.getD 2 ""
   -- `?` for the dialect: the harness could not read the tag off the prober's debug line (the port comes from the result)
-  let sameButTag := out.getD 2 "" == "?" && model.take 2 == out.take 2
-  verdict (model == out.take 3 || tie || sameButTag) ok s!"sig=choice model={" ".intercalate model}"
+  let sameButTag := out.getD 2 "" == "?" && model.take 2 == out.take 2 && model.drop 3 == out.drop 3
+  verdict (model == out || tie || sameButTag) ok
+    ((cond choiceOk "" "sig=choice ") ++ (cond classOk "" s!"sig=result-class:{out.getD 3 ""} ") ++ s!"model={" ".intercalate model}")
 
 /-- `<id>=kvs|<id>=kvs|…` -/
 def playersIds? (s : String) : Option (List (Nat × List (Bytes × Bytes))) :=
